@@ -217,9 +217,7 @@ def build(rc: RuleCtx, qual: str, bind: Optional[Dict[str, Any]] = None, allow_b
 
 
 def _index_like(v: Rat) -> bool:
-    rest, _c = split_const(v)
-    a = single_atom(rest)
-    return a is not None and a.kind == "fn" and (a.name in ("argmax", "argmin", "int", "floor") or a.name.endswith("searchsorted"))
+    return _position_atom(v) is not None
 
 
 def _find_index(env_post, env_pre):
@@ -246,6 +244,9 @@ class Interval:
     hi: Rat
     why: str
     needs_L3: bool = False
+    atom: Any = None          # the position-valued atom of the index (argmax / argmin / searchsorted / int)
+    a_lo: Optional[Rat] = None
+    a_hi: Optional[Rat] = None
 
 
 def index_cases(m: LoopModel) -> List[Tuple[G, Rat]]:
@@ -259,14 +260,27 @@ def index_cases(m: LoopModel) -> List[Tuple[G, Rat]]:
     return out
 
 
+from ..intervals import position_atom as _position_atom  # noqa: E402
+
+
+def scanned_positions(m: LoopModel, idx: Rat):
+    from ..intervals import scanned_positions as _sp
+    return _sp(idx, m.length_of)
+
+
 def interval_of(m: LoopModel, idx: Rat) -> Optional[Interval]:
-    """Interval of one case of the split index, relative to the segment length L = right - left."""
-    rest, c = split_const(idx)
-    a = single_atom(rest)
-    if a is None:
+    """Interval of one case of the split index, relative to the segment length L = right - left.  The index is
+    rest + (position) or rest - (position) - the second form is how a scan over a reversed view is mapped back."""
+    pa = _position_atom(idx)
+    if pa is None:
         return None
+    a, s, rest = pa
     L = m.L
-    if a.kind == "fn" and a.name in ("argmax", "argmin"):
+
+    def mk(a_lo: Rat, a_hi: Rat, why: str, needs_L3: bool = False) -> Interval:
+        lo, hi = (rest.add(a_lo), rest.add(a_hi)) if s > 0 else (rest.sub(a_hi), rest.sub(a_lo))
+        return Interval(lo, hi, why + (f" + {rest}" if s > 0 else f", mapped back as {rest} - position"), needs_L3, a, a_lo, a_hi)
+    if a.name in ("argmax", "argmin"):
         X = a.args[0]
         xa = single_atom(X)
         if xa is not None and xa.kind == "fn" and xa.name == "slice":
@@ -281,20 +295,27 @@ def interval_of(m: LoopModel, idx: Rat) -> Optional[Interval]:
                 hc = hi.is_const()
                 hi_v = Lb.add(hi) if (hc is not None and hc < 0) else hi
             n = hi_v.sub(lo_v)
-            return Interval(C(c), n.sub(C(1)).add(C(c)),
-                            f"{a.name} over d[{lo_v}:{hi_v}] (length {n}) + {c}")
+            return mk(C(0), n.sub(C(1)), f"{a.name} over d[{lo_v}:{hi_v}] (length {n})")
+        if xa is not None and xa.kind == "fn" and xa.name == "rslice":
+            from ..gvn import rslice_bounds
+            Lb = m.length_of(xa.args[0])
+            if not Lb.equals(L):
+                return None
+            first, stop = rslice_bounds(xa, Lb)
+            n = first.sub(stop)
+            return mk(C(0), n.sub(C(1)), f"{a.name} over the reversed view d[{first}], .., d[{stop.add(C(1))}] (length {n})")
         Lx = m.length_of(X)
         if not Lx.equals(L):
             return None
-        return Interval(C(c), Lx.sub(C(1)).add(C(c)), f"{a.name} over the whole distance vector (length L) + {c}")
-    if a.kind == "fn" and a.name.endswith("searchsorted") and a.args:
+        return mk(C(0), Lx.sub(C(1)), f"{a.name} over the whole distance vector (length L)")
+    if a.name.endswith("searchsorted") and a.args:
         # dependency contract: an insertion position of a sorted array a is any of 0 .. len(a) (both ends included)
         La = m.length_of(a.args[0])
-        return Interval(C(c), La.add(C(c)), f"np.searchsorted returns an insertion position in [0, len] = [0, {La}] (+ {c})")
-    if a.kind == "fn" and a.name in ("int", "floor"):
+        return mk(C(0), La, f"np.searchsorted returns an insertion position in [0, len] = [0, {La}]")
+    if a.name in ("int", "floor"):
         inner = a.args[0]
-        if inner.mul(C(2)).equals(L) and c == 0:
-            return Interval(C(1), L.sub(C(2)), "int(L/2) (or L//2) with integer L >= 3 lies in [1, L-2]", needs_L3=True)
+        if inner.mul(C(2)).equals(L) and s > 0 and rest.is_zero():
+            return mk(C(1), L.sub(C(2)), "int(L/2) (or L//2) with integer L >= 3 lies in [1, L-2]", needs_L3=True)
     return None
 
 
@@ -342,28 +363,25 @@ def range_obligations(m: LoopModel, A: Rat, B: Rat, idx: Rat, iv: Interval, lmin
     L = m.L
     obs = [("A >= left", A.sub(m.left)), ("B <= right", m.right.sub(B)), ("B - A >= 2 (has room for both end points)", B.sub(A).sub(C(2))),
            ("B - A <= L - 1 (strictly shorter)", L.sub(C(1)).sub(B.sub(A)))]
-    rest, _c = split_const(idx)
-    atom = single_atom(rest)
+    atom = iv.atom
     out = []
     for name, expr in obs:
         ok = False
         why = ""
         lin = linear_in(expr, atom) if atom is not None else None
-        if lin is None:
+        if lin is None or lin[0] == 0:
             # the index may cancel out entirely
             e = with_length_fact(m, expr, lmin)
             ok = e.is_nonneg()
             why = f"{expr} >= 0 under L >= {lmin}: {'proved' if ok else 'not proved'}"
         else:
             coef, rest_e = lin
-            # expr = coef*atom + rest ;  idx = atom + c  =>  atom in [lo - c, hi - c]
-            _r, c = split_const(idx)
-            lo_a, hi_a = iv.lo.sub(C(c)), iv.hi.sub(C(c))
-            worst = lo_a if coef >= 0 else hi_a
+            # expr = coef * position + rest, position in [a_lo, a_hi]: plug in the worst end
+            worst = iv.a_lo if coef >= 0 else iv.a_hi
             val = rest_e.add(worst.mul(C(coef)))
             e = with_length_fact(m, val, lmin)
             ok = e.is_nonneg()
-            why = f"{name}: worst case at index {'lower' if coef >= 0 else 'upper'} bound gives {val} >= 0 under L >= {lmin}: {'proved' if ok else 'NOT proved'}"
+            why = f"{name}: worst case at position {'lower' if coef >= 0 else 'upper'} bound gives {val} >= 0 under L >= {lmin}: {'proved' if ok else 'NOT proved'}"
         out.append((name, ok, why))
     return out
 
